@@ -165,7 +165,22 @@ EXTRA8 = {
  "C19": " A target that can be created but refuses every write (full disk): every call returns.",
  "C20": " A rolling appender in a process west / east of UTC with a retention shorter than the zone offset.",
 }
-for e in (EXTRA, EXTRA5, EXTRA6, EXTRA7, EXTRA8):
+# round 9
+EXTRA9 = {
+ "C01": " Through the asynchronous path: two references with disjoint ranges behind an AsyncLogger, events of two levels, a buffer overflow in between, all interleavings (P<=2). References naming built-in levels and user-registered ALIASES of the same codes.",
+ "C02": " A non-root logger whose level excludes the event or is empty still owns its tags and obeys the error rules.",
+ "C03": " Two appenders with layouts of different file:line widths (absolute check of the column); the line a layout hands out is still intact after three further events have been formatted, for every payload length 0..cap+cap/4 and four buffer caps.",
+ "C04": " Lives that see only raw writes / only events / only disabled events / only empty writes; the overflow policies through every asynchronous logger kind Refresh can build (stalled disk).",
+ "C05": " Pending timers of the code under test may fire at any scheduling point (a time-limited wait in Stop / Destroy is cut off there).",
+ "C06": " The three policies through every asynchronous logger kind Refresh can build (rolling-file logger with async=true, with separate files, AsyncLogger on a file): the disk is stalled, 100 lines are buffered, three more items arrive.",
+ "C08": " The line-stays-intact enumeration of C03.",
+ "C10": " Every sequence of 1-3 time-hook answers over 7 instants / zones through 4 paths. With NO hook set: the virtual clock is moved 90 min before every probe, for every registered top-level property (discovered from the tree) with the values true / false / 1 - while the configuration is live, after Destroy, under a second configuration, after the second Destroy.",
+ "C12": " Loggers that no registered tag resolves to (the handle is their only user), 7 kinds incl. the file-owning ones; the lifecycle state search of C16 is also registered here (a write through a handle reaches the appenders of the logger configured under that name NOW).",
+ "C15": " An OPTIONAL element (logger-level layout) configured with an unknown or empty type is an error.",
+ "C19": " The atomic shim mirrors the panics of atomic.Value (nil, inconsistently typed value); the read-write mutex shim holds new readers back while a writer waits.",
+ "C20": " A level on the way (rolling-file logger with a level, logger-level layout in front of references with a level); with separate=true the line of an event at WARN or above is in the .wf file. Raw descriptor calls (syscall.Write ...) are part of the in-memory filesystem. Garbage collections as environment events on real files: a full collection with its finalizers after the k-th of 4 calls, every k, 5 file-writing kinds x 2 layouts.",
+}
+for e in (EXTRA, EXTRA5, EXTRA6, EXTRA7, EXTRA8, EXTRA9):
     for k, v in e.items():
         CHECKS[k]["text"] += v
 CHECKS["C15"]["note"] = CHECKS["C15"]["note"].replace("Trusted: the deviation table (expected defaults) in harness/enum/c15.go.", "Trusted: the deviation table in harness/enum/c15.go (expected defaults of integer/boolean/word attributes are read from the live plugin's struct tag, so a tree that declares other defaults is not an alarm).")
